@@ -501,3 +501,105 @@ fn c11_preview_case(rng: &mut Rng, st: &mut Stats, ns: &[usize], min_words: usiz
         Err(p) => CaseOutcome::Violated(Violation::new(format!("panic: {}", p), case(json!(null)))),
     }
 }
+
+// ------------------------------------------------------------------------------------------------
+// C04 / C05: long lookahead texts
+// ------------------------------------------------------------------------------------------------
+
+/// (pattern, lookahead (positive, pattern), piece kind); piece kinds: 0 = k + (b|c)^L + d,
+/// 1 = m m + é^L + x|y, 2 = n + (é|€)^L, 9 = none (filler)
+const LA_POOL: [(&str, Option<(bool, &str)>, u8); 9] = [
+    ("k", Some((true, "[bc]+d")), 0),
+    ("kb", None, 0),
+    ("k[bc]*", None, 0),
+    ("k[bc]*d", None, 0),
+    ("m+", Some((false, "é+x")), 1),
+    ("m+é*", Some((true, "x")), 1),
+    ("n", Some((true, "(é|€)+")), 2),
+    ("n(é|€)*", None, 2),
+    ("m", Some((true, "mé+y")), 1),
+];
+const LA_FILLERS: [&str; 6] = ["[bc]+", "d", "é+", "x", "y", "[€ ]"];
+
+#[cfg(feature = "hooks")]
+pub fn long_lookahead_case(rng: &mut Rng, st: &mut Stats, gate_only: bool) -> CaseOutcome {
+    let mut idx: Vec<usize> = (0..LA_POOL.len()).collect();
+    rng.shuffle(&mut idx);
+    idx.truncate(rng.range(2, 5));
+    let mut entries: Vec<(String, Option<(bool, String)>)> =
+        idx.iter().map(|k| (LA_POOL[*k].0.to_string(), LA_POOL[*k].1.map(|(p, s)| (p, s.to_string())))).collect();
+    let mut fill: Vec<&str> = LA_FILLERS.to_vec();
+    rng.shuffle(&mut fill);
+    for f in fill.iter().take(rng.range(1, 3)) {
+        entries.push((f.to_string(), None));
+    }
+    rng.shuffle(&mut entries);
+    let pats: Vec<RefPattern> = entries
+        .iter()
+        .enumerate()
+        .map(|(i, (p, la))| RefPattern { re: parse_to_ir(p).unwrap(), tt: i, la: la.as_ref().map(|(pos, s)| (*pos, parse_to_ir(s).unwrap())) })
+        .collect();
+    let cfg = ScannerCfg::single(pats);
+    let kinds: Vec<u8> = idx.iter().map(|k| LA_POOL[*k].2).collect();
+    let mut input = String::new();
+    let mut longest = 0usize;
+    for _ in 0..rng.range(2, 6) {
+        let len = boundary_len(rng);
+        longest = longest.max(len);
+        match *rng.pick(&kinds) {
+            0 => {
+                input.push('k');
+                for _ in 0..len {
+                    input.push(if rng.chance(1, 2) { 'b' } else { 'c' });
+                }
+                if rng.chance(5, 6) {
+                    input.push('d');
+                }
+            }
+            1 => {
+                input.push_str(if rng.chance(1, 2) { "mm" } else { "m" });
+                input.extend(std::iter::repeat('é').take(len));
+                match rng.below(3) {
+                    0 => input.push('x'),
+                    1 => input.push('y'),
+                    _ => {}
+                }
+            }
+            _ => {
+                input.push('n');
+                for _ in 0..len {
+                    input.push(if rng.chance(1, 2) { 'é' } else { '€' });
+                }
+            }
+        }
+        if rng.chance(1, 2) {
+            input.push(' ');
+        }
+        if input.len() > 600_000 {
+            break;
+        }
+    }
+    let case = || json!({"kind": "scale", "patterns": cfg.describe(), "input_bytes": input.len()});
+    let scanner = match cfg.build_uncached() {
+        Ok(s) => s,
+        Err(e) => return CaseOutcome::Violated(Violation::new(format!("build failed: {}", e), case())),
+    };
+    st.count("long_lookahead_scans");
+    if longest > 255 {
+        st.count("scans_with_a_lookahead_text_longer_than_255_chars");
+    }
+    if longest > 65_535 {
+        st.count("scans_with_a_lookahead_text_longer_than_65535_chars");
+    }
+    let judged = sut(|| if gate_only { crate::reftok::check_corpus_gate(&cfg, &scanner, &input) } else { crate::reftok::check_corpus(&cfg, &scanner, &input) });
+    match judged {
+        Ok(Ok((tokens, _))) => {
+            st.add("long_lookahead_tokens_compared", tokens as u64);
+            st.nontrivial(hash_of(&(&cfg, &input)));
+            st.sample(json!({"patterns": cfg.describe(), "input_bytes": input.len(), "tokens": tokens, "longest_run_chars": longest}));
+            CaseOutcome::Ok
+        }
+        Ok(Err(e)) => CaseOutcome::Violated(Violation::new(e, case())),
+        Err(p) => CaseOutcome::Violated(Violation::new(format!("panic: {}", p), case())),
+    }
+}
